@@ -43,6 +43,11 @@ CHECKS["C18"] = ("Coq theorems for every declaration (any subset of the eleven w
          "words are additive, tuple admits newtype but not conversely, struct/enum words do not mix, one error per non-conforming variant, a union is an error and no body panics, the stand-alone "
          "ShapeSet API agrees with the derived code. Tied to the code by the exhaustive run-time API (16 sets x 4 shapes), 121 compiled FromDeriveInput receivers x struct/enum/union bodies and all 32 FromVariant subsets.",
          "Coq proof (case analysis + induction over variant lists) + per-run differential correspondence against compiled receivers")
+CHECKS["C19"] = ("Coq theorems over the mirrored syn::Type grammar (every form, any depth), all query sets, both purposes: the analysis returns exactly the members of the set that occur where they denote "
+         "the parameter (inductive relation occurs_tp: leading unqualified segment, generic arguments, through references/pointers/slices/arrays/tuples/fn and trait-object types, qself only for Declare), "
+         "never a name outside the set (type params and lifetimes), collections are unions, non-use positions. Tied to the code by grammar-generated types with parameters planted at use and non-use positions "
+         "(the planting is the ground truth), the syn tree mirrored into the model by the harness. The impl-header half is checked through derive::* (see C10/C06 machinery).",
+         "Coq proof (induction over a nested syntax tree against an inductive occurrence relation) + per-run differential correspondence")
 PARTIAL = {}
 def chk(pid):
     text, tech = CHECKS[pid]
